@@ -84,7 +84,13 @@ class DiffBaseStorage(conventions.StorageKeyMarkingConvention,
                 del annotations[annotation]
 
         # Restore all explicitly whitelisted extra-fields from the original body.
-        dicts.cherrypick(src=body, dst=essence, fields=extra_fields, picker=copy.deepcopy)
+        # A field hidden behind a non-mapping value (e.g. `spec.struct.field` when `spec.struct`
+        # is a string or a list in this object) is the same as an absent field: nothing to restore.
+        for extra_field in (extra_fields or []):
+            try:
+                dicts.cherrypick(src=body, dst=essence, fields=[extra_field], picker=copy.deepcopy)
+            except TypeError:
+                pass
 
         self.remove_empty_stanzas(cast(bodies.BodyEssence, essence))
 
@@ -200,7 +206,10 @@ class StatusDiffBaseStorage(DiffBaseStorage):
 
         # Work around an issue with mypy not treating TypedDicts as MutableMappings.
         essence_dict = cast(dict[Any, Any], essence)
-        dicts.remove(essence_dict, self.field)
+        try:
+            dicts.remove(essence_dict, self.field)
+        except TypeError:
+            pass  # the field is hidden behind a non-mapping value: nothing of ours is there.
 
         return essence
 
